@@ -3,11 +3,11 @@ from propcfg.C01 import NODE_TB
 
 CFG = {
     "props": "Props/C05.v",
-    "corr": ["Corr/NodeCorr.v"],
-    "engines": [("node", [])],
+    "corr": ["Corr/NodeCorr.v", "Corr/NetCorr.v"],
+    "engines": [("node", []), ("net", [])],
     "axioms": [],
     "trusted": NODE_TB + ["hypotheses recov_complete (recover-validity of threshold BLS), vrec_unique (deterministic BLS), vrec_unchained and 0 <= partialCacheStoreLimit are Section hypotheses visible in the theorem statements; the fairness premise (the exchanges happen) is the shape of the theorem: it speaks about the state after the exchanges"],
     "assumptions": ["PARTIAL: real timers, goroutine fairness, gRPC reconnects and the random peer order are not modelled; 'eventually' in wall-clock terms is outside a kernel-checked theorem; the node engine exercises stop/restart with honest sync, catch-up sleepers and multi-round production on the real Handler"],
-    "level_text": "C05_system_rounds: for ALL group sizes, thresholds and k, from an aligned state k exchanges of partials among at least a threshold of honest nodes (each an instance of the node model with its own share) make every node append the same k verified beacons of rounds head+1..head+k in order, none skipped, and leave the system aligned again (so the argument iterates and covers catch-up from any backlog); C05_node_round is the one-node core (any arrival order); C05_tick_rebroadcasts (every tick re-broadcasts on top of the head; a gap triggers a sync) and C05_rejoin (a restarted node stores an honest peer's whole stream). Labelled partial: the theorems establish the logic of progress under the fairness premise; the runtime part (timers, scheduling, transport) is exercised by the node engine on the real Handler, not proved.",
+    "level_text": "C05_system_rounds: for ALL group sizes, thresholds and k, from an aligned state k exchanges of partials among at least a threshold of honest nodes (each an instance of the node model with its own share) make every node append the same k verified beacons of rounds head+1..head+k in order, none skipped, and leave the system aligned again (so the argument iterates and covers catch-up from any backlog); C05_node_round is the one-node core (any arrival order); C05_tick_rebroadcasts (every tick re-broadcasts on top of the head; a gap triggers a sync) and C05_rejoin (a restarted node stores an honest peer's whole stream). Labelled partial: the theorems establish the logic of progress under the fairness premise; the runtime part (timers, scheduling, transport) is exercised by the node engine on the real Handler, not proved. System engine: several real Handlers with the harness as network; after a full exchange every running node must hold every round for which a threshold of valid partials reached it (monitor C05-threshold-connected-but-round-missing); its runs are replayed through Model/Net.v.",
     "level_note": "Kernel-checked, no axioms. Liveness in wall-clock terms is not certified (partial); crypto is abstracted by oracles with stated hypotheses; the correspondence with the real beacon.Handler is at quiescent steps.",
 }
